@@ -1,8 +1,8 @@
 //@ unit elemstack_lookup
 //@ props C06 C01
 //@ kind B
-//@ def quick NROWS=3 NMAP=2
-//@ def thorough NROWS=3 NMAP=4
+//@ def quick NROWS=2 NMAP=2
+//@ def thorough NROWS=3 NMAP=2
 //@ cbmc all --unwind 6 --unwinding-assertions
 //@ entry h_elemstack_lookup
 //@ note B (bounded stand-in, not counted as proved): the heap shape is built by the harness: <= NROWS stack rows with <= NMAP bindings each plus an optional global row with <= NMAP bindings, arbitrary prefix / URI ids in every slot; the two nested search loops are fully unwound. An unbounded version needs a quantified invariant over all rows (no __CPROVER_forall in this framework)
